@@ -2,8 +2,8 @@ package main
 
 import (
 	"fmt"
-	"go/token"
 	"go/types"
+	"strings"
 
 	"golang.org/x/tools/go/ssa"
 )
@@ -69,9 +69,6 @@ func (u *Unit) tableCall(st *State, instr ssa.Instruction, common *ssa.CallCommo
 	u.note(fmt.Sprintf("%s: call through a %s value resolved over the %d repository functions of that signature whose value is taken", u.key, types.TypeString(common.Value.Type(), u.eng.qual), len(cands)))
 	return rs, true
 }
-func (u *Unit) lockEffects(st *State, c *Contract, name string, args []Term, pos token.Pos)      {}
-func (u *Unit) guardedAccess(st *State, x *ssa.FieldAddr, structT types.Type, field int, r Term) {}
-func (u *Unit) guardedMapAccess(st *State, m ssa.Value, pos token.Pos, write bool)               {}
 
 // initGhost declares the ghost variables of the contract with their initial values.
 func (u *Unit) initGhost(st *State) {
@@ -119,4 +116,101 @@ func (u *Unit) ghostUpdates(st *State, where string, ctx *EvalCtx) {
 		st.ghost[g.Var] = nv
 	}
 }
-func (u *Unit) checkLockBalance(st *State, pos token.Pos) {}
+
+// dynCall handles a call through a function value whose possible targets include closures or
+// non-pure functions: every precondition of every possible target that can be stated over the call's
+// arguments is required (conservatively, whichever target it is), the effects are the union.
+func (u *Unit) dynCall(st *State, instr ssa.Instruction, common *ssa.CallCommon, args []Term) ([]Term, bool) {
+	sig := common.Signature()
+	var targets []*ssa.Function
+	for _, f := range u.eng.funcCandidates(sig) {
+		targets = append(targets, f)
+	}
+	// bound method values: c.refresh passed as func() error
+	for f := range u.eng.boundTargets(sig) {
+		targets = append(targets, f)
+	}
+	if len(targets) == 0 {
+		return nil, false
+	}
+	allPure := true
+	var keep []string
+	first := true
+	for _, f := range targets {
+		c := u.eng.contractFor(f)
+		name := funcPkgPath(f) + "." + funcKey(f)
+		if c == nil {
+			return nil, false
+		}
+		u.usedContracts[name] = true
+		off := len(f.Params) - len(args) // bound methods: the receiver is not an argument
+		for _, r := range c.Requires {
+			ok := func() (ok bool) {
+				defer func() {
+					if rec := recover(); rec != nil {
+						if _, isEval := rec.(evalErr); isEval {
+							ok = false
+							return
+						}
+						panic(rec)
+					}
+				}()
+				ctx := &EvalCtx{u: u, st: st, bound: map[string]bool{}, vars: map[string]Term{}}
+				ctx.pkg = calleePkg(f)
+				for j := range args {
+					if j+off < len(c.Params) {
+						a := args[j]
+						a.T = f.Params[j+off].Type()
+						ctx.vars[c.Params[j+off]] = a
+					}
+				}
+				g := ctx.eval(r.Expr)
+				kind := "pre"
+				if strings.Contains(r.Text, "excl") || strings.Contains(r.Text, "held") {
+					kind = "lock"
+				}
+				u.oblige(st, kind, instr.Pos(), g, shortName(name)+" (possible target of the function value): "+r.Text, nil)
+				return true
+			}()
+			if !ok {
+				u.note(fmt.Sprintf("%s: precondition %q of possible call target %s mentions state not visible at the call through a function value; not checked there", u.key, r.Text, name))
+			}
+		}
+		if !c.Pure {
+			allPure = false
+			if len(c.Preserves) > 0 && !c.HasModifies {
+				if first {
+					keep = append([]string(nil), c.Preserves...)
+				} else {
+					var inter []string
+					for _, a := range keep {
+						for _, b := range c.Preserves {
+							if a == b {
+								inter = append(inter, a)
+							}
+						}
+					}
+					keep = inter
+				}
+			} else {
+				keep = nil
+			}
+			first = false
+		}
+	}
+	if !allPure {
+		u.frameCallAll(st, instr.Pos(), "function value")
+		if len(keep) > 0 {
+			u.havocAllExcept(st, keep)
+		} else {
+			u.havocAll(st)
+		}
+	}
+	u.advanceAlloc(st)
+	var rs []Term
+	for i, t := range resultTypes(sig) {
+		rs = append(rs, u.freshOf(st, fmt.Sprintf("r%d_dyn", i), t))
+	}
+	u.note(fmt.Sprintf("%s: call through a %s value: preconditions of all %d possible targets required, effects over-approximated", u.key, types.TypeString(common.Value.Type(), u.eng.qual), len(targets)))
+	return rs, true
+}
